@@ -657,6 +657,68 @@ static void fill_case(uint64_t idx, void *vctx)
     pixman_image_unref(solid); pixman_image_unref(d1); pixman_image_unref(d2); free(b1); free(b2);
 }
 
+/* ------------------------------------------------------------------ space "indexed": a palette image and its a8r8g8b8 expansion
+ * A c8 image presents whatever its palette says.  Whether the library may treat it as opaque depends on the palette's CURRENT contents
+ * (the library keeps the caller's table, which the caller may edit): variant 0 opaque palette, 1 translucent palette, 2 palette opaque at
+ * the first use and edited in place to the translucent one afterwards.  Every variant must draw exactly like the a8r8g8b8 image that
+ * holds the palette colours of the same indices. */
+typedef struct { const int *cfgs; int ncfg; } ix_ctx;
+static void indexed_case(uint64_t idx, void *vctx)
+{
+    ix_ctx *c = vctx;
+    int dims[6] = { 2, 3, 2, 4, RC_NOPS, c->ncfg }, d[6];
+    vf_decode(idx, dims, 6, d);
+    int rqk = d[0], var = d[1], role = d[2], rep = d[3], op = rc_all_ops[d[4]];
+    if (role == 1 && rc_is_hsl(op)) { /* unified mask: fine */ }
+    static pixman_indexed_t palbuf[2];      /* [0] the image's table, [1] scratch */
+    pixman_indexed_t *P = &palbuf[0];
+    memset(P, 0, sizeof *P); P->color = 1;
+    for (int i = 0; i < 256; i++) { unsigned r = (unsigned)(i * 37 + 11) & 0xff, g = (unsigned)(i * 91 + 7) & 0xff, b = (unsigned)(i * 13 + 3) & 0xff; P->rgba[i] = 0xff000000u | r << 16 | g << 8 | b; }
+    for (int i = 0; i < 32768; i++) P->ent[i] = (uint8_t)((i * 13 + (i >> 7)) & 0xff);
+#define IX_TRANSLUCENT(Pp) do { for (int i_ = 1; i_ < 256; i_ += 2) { unsigned a_ = 0x40 + (unsigned)(i_ % 3) * 0x40, r_ = ((Pp)->rgba[i_] >> 16 & 255) * a_ / 255, g_ = ((Pp)->rgba[i_] >> 8 & 255) * a_ / 255, b_ = ((Pp)->rgba[i_] & 255) * a_ / 255; (Pp)->rgba[i_] = a_ << 24 | r_ << 16 | g_ << 8 | b_; } } while (0)
+    if (var == 1) IX_TRANSLUCENT(P);
+    uint8_t ibits[4][8]; uint32_t xbits[4][5];
+    for (int y = 0; y < 4; y++) for (int x = 0; x < 5; x++) ibits[y][x] = (uint8_t)(x * 3 + y * 7 + 1);      /* odd and even indices */
+    pixman_image_t *ix = pixman_image_create_bits(PIXMAN_c8, 5, 4, (uint32_t *)&ibits[0][0], 8);
+    pixman_image_set_indexed(ix, P);
+    static const pixman_repeat_t reps[4] = { PIXMAN_REPEAT_NONE, PIXMAN_REPEAT_NORMAL, PIXMAN_REPEAT_PAD, PIXMAN_REPEAT_REFLECT };
+    pixman_image_set_repeat(ix, reps[rep]);
+    ph_set_cfg(c->cfgs[d[5]]);
+    uint32_t dinit[DW * DH], dA[DW * DH], dB[DW * DH];
+    for (int i = 0; i < DW * DH; i++) dinit[i] = translucent(i + 1);
+    pixman_image_t *solid = NULL; { pixman_color_t cc = { 0xc0c0, 0x3030, 0x6060, 0xd0d0 }; solid = pixman_image_create_solid_fill(&cc); }
+    if (var == 2) {
+        /* first use with the opaque palette, then the edit in place (no library call) */
+        memcpy(dA, dinit, sizeof dA); pixman_image_t *dd = pixman_image_create_bits(PIXMAN_a8r8g8b8, DW, DH, dA, DW * 4);
+        pixman_image_composite32(PIXMAN_OP_OVER, ix, NULL, dd, 0, 0, 0, 0, 0, 0, 5, 4); pixman_image_composite32(PIXMAN_OP_OVER, solid, ix, dd, 0, 0, 0, 0, 0, 0, 5, 4);
+        pixman_image_unref(dd);
+        IX_TRANSLUCENT(P);
+    }
+    for (int y = 0; y < 4; y++) for (int x = 0; x < 5; x++) xbits[y][x] = P->rgba[ibits[y][x]];
+    pixman_image_t *ex = pixman_image_create_bits(PIXMAN_a8r8g8b8, 5, 4, &xbits[0][0], 20);
+    pixman_image_set_repeat(ex, reps[rep]);
+    int sx = rqk ? -2 : 0, sy = rqk ? -1 : 0, w = rqk ? 9 : 5, h = rqk ? 6 : 4;
+    for (int k = 0; k < 2; k++) {
+        uint32_t *db = k ? dB : dA; memcpy(db, dinit, sizeof dinit);
+        pixman_image_t *dd = pixman_image_create_bits(PIXMAN_a8r8g8b8, DW, DH, db, DW * 4);
+        pixman_image_t *img = k ? ex : ix;
+        if (role == 0) pixman_image_composite32((pixman_op_t)op, img, NULL, dd, sx, sy, 0, 0, 1, 1, w, h);
+        else pixman_image_composite32((pixman_op_t)op, solid, img, dd, 0, 0, sx, sy, 1, 1, w, h);
+        pixman_image_unref(dd);
+    }
+    vf_count_eval(1); vf_count_libcalls(2);
+    for (int i = 0; i < DW * DH; i++) if (dA[i] != dB[i]) {
+        char cn[64];
+        vf_violation("c09-indexed-differs-from-its-expansion", "operator %s, c8 image as %s, repeat %s, palette %s, request %dx%d at source (%d,%d) [%s]: destination pixel (%d,%d) is %08x, "
+                     "the a8r8g8b8 image holding the same palette colours gives %08x", rc_op_name(op), role ? "mask of a solid" : "source", REPN[rep],
+                     var == 0 ? "all opaque" : var == 1 ? "with translucent entries" : "all opaque at the first use, edited in place to translucent entries afterwards", w, h, sx, sy,
+                     ph_cfg_name(c->cfgs[d[5]], cn, sizeof cn), i % DW, i / DW, dA[i], dB[i]);
+        break;
+    }
+    if (!vf_in_confirm) { if (memcmp(dA, dinit, sizeof dinit)) vf_count_nontrivial(1); vf_outcome(vf_mix(vf_hash64(dA, sizeof dA, (uint64_t)op), (uint64_t)var)); }
+    pixman_image_unref(ix); pixman_image_unref(ex); pixman_image_unref(solid);
+}
+
 int main(int argc, char **argv)
 {
     vf_init(argc, argv, "C09", "exploration");
@@ -712,6 +774,8 @@ int main(int argc, char **argv)
     int nkind[3] = { 0, 0, 0 }; for (int i = 0; i < gc.dims[4]; i++) nkind[GD[i].kind]++;
     if (!only || !strcmp(only, "gradients")) vf_space_run("gradients", NG, gscen_case, &gc);
 
+    ix_ctx xc = { c.cfgs, ncfg };
+    if (!only || !strcmp(only, "indexed")) vf_space_run("indexed", (uint64_t)2 * 3 * 2 * 4 * RC_NOPS * ncfg, indexed_case, &xc);
     fd_ctx fc = { c.cfgs, ncfg };
     if (!only || !strcmp(only, "solid-fill")) vf_space_run("solid-fill", (uint64_t)3 * FD_NALPHA * FD_NFMT * RC_NOPS * ncfg, fill_case, &fc);
 
@@ -747,7 +811,8 @@ int main(int argc, char **argv)
              "opaque and translucent 3x3 sources) x %d gradients (%d linear, %d radial: a<0, a==0 internally tangent, a>0 disjoint / overlapping / equal circles; %d conical) x %d stop sets "
              "(all opaque | one translucent stop) x 4 repeats x %d transforms x %d request rectangles (up to 20x7, reaching outside the cone resp. outside [0,1]) x %d configurations "
              "(default, general path only%s) = %llu cases, 2-3 presentations each. Space 'solid-fill': 53 operators x 10 destination formats (8-bit, 10-bit, sRGB, float) x 8 colour alphas "
-             "(0xffff, 0xfffe, 0xff80, 0xff00, 0xfeff, 0xc000, 1, 0) x 3 colours x the configurations: fill_rectangles vs compositing the solid image%s",
+             "(0xffff, 0xfffe, 0xff80, 0xff00, 0xfeff, 0xc000, 1, 0) x 3 colours x the configurations: fill_rectangles vs compositing the solid image. Space 'indexed': 53 operators x c8 image as source / mask x 4 repeats x "
+             "palette {opaque, translucent, opaque at first use then edited in place} x 2 requests x the configurations, against the a8r8g8b8 expansion%s",
              c.dims[4], c.dims[3], c.dims[1], c.dims[0], ncfg, (unsigned long long)N,
              gc.dims[5], th ? " / a8" : "", gc.dims[4], nkind[GK_LINEAR], nkind[GK_RADIAL], nkind[GK_CONICAL], gc.dims[3], gc.dims[1], gc.dims[0], ncfg, th ? ", whole-operation paths off, SSE2+SSSE3 off, MMX+SSE2+SSSE3 off" : "", (unsigned long long)NG,
              only ? " [C09_ONLY set: only one space was run]" : "");
